@@ -36,6 +36,8 @@ pub fn guarded<T>(f: impl FnOnce() -> T) -> Result<T, String> {
 }
 
 static LAST_PANIC_LOC: Mutex<String> = Mutex::new(String::new());
+/// directory of the events file: scratch files of `run_fresh` live next to it
+static SCRATCH_DIR: Mutex<String> = Mutex::new(String::new());
 
 fn main() {
     let args: Vec<String> = std::env::args().collect();
@@ -52,6 +54,11 @@ fn main() {
         *LAST_PANIC_LOC.lock().unwrap() = loc;
     }));
 
+    *SCRATCH_DIR.lock().unwrap() = std::path::Path::new(&args[2])
+        .parent()
+        .map(|p| p.to_string_lossy().to_string())
+        .filter(|p| !p.is_empty())
+        .unwrap_or_else(|| ".".to_string());
     let input = BufReader::new(std::fs::File::open(&args[1]).expect("open commands"));
     let out = Arc::new(Mutex::new(BufWriter::new(
         std::fs::File::create(&args[2]).expect("create events"),
@@ -110,8 +117,46 @@ fn now_ms() -> u64 {
         .as_millis() as u64
 }
 
+/// A command carrying "fresh": true is executed by a NEW driver process (this executable, started on a
+/// one-command file), so that nothing an earlier command may have left behind in process-wide or
+/// per-thread state of the code under test can reach it.  The events are relayed unchanged.
+fn run_fresh(cmd: &Value) -> Vec<Value> {
+    let mut inner = cmd.clone();
+    inner.as_object_mut().map(|o| o.remove("fresh"));
+    let fail = |what: String| {
+        let mut ev = cmd.clone();
+        ev["ret"] = json!(format!("harness:fresh:{}", what));
+        vec![ev]
+    };
+    let dir = std::path::PathBuf::from(SCRATCH_DIR.lock().unwrap().clone());
+    let tag = format!("drv-fresh-{}-{}", std::process::id(), now_ms());
+    let (inp, outp) = (dir.join(format!("{}.in", tag)), dir.join(format!("{}.out", tag)));
+    if std::fs::write(&inp, format!("{}\n", inner)).is_err() {
+        return fail("write".into());
+    }
+    let exe = match std::env::current_exe() {
+        Ok(e) => e,
+        Err(e) => return fail(e.to_string()),
+    };
+    let st = std::process::Command::new(exe).arg(&inp).arg(&outp).arg("60000").status();
+    let text = std::fs::read_to_string(&outp).unwrap_or_default();
+    let _ = std::fs::remove_file(&inp);
+    let _ = std::fs::remove_file(&outp);
+    let mut evs: Vec<Value> = text.lines().filter_map(|l| serde_json::from_str(l).ok()).collect();
+    if evs.is_empty() {
+        return fail(format!("no events (status {:?})", st.map(|s| s.code())));
+    }
+    for ev in evs.iter_mut() {
+        ev["fresh"] = json!(true);
+    }
+    evs
+}
+
 fn dispatch(ctx: &mut dec::Ctx, cmd: &Value) -> Vec<Value> {
     let op = cmd["op"].as_str().unwrap_or("");
+    if cmd["fresh"].as_bool().unwrap_or(false) {
+        return run_fresh(cmd);
+    }
     match op {
         "yuv" => vec![pure::yuv(cmd)],
         "yuv_sweep" => vec![pure::yuv_sweep(cmd)],
